@@ -4,6 +4,7 @@ from ..mon import gt_parse, gt_hex
 from ..rm import q, r, F1, F2, h32
 
 ID = 'C11'
+PERTURB = (8, 80)      # cases re-run in the repeat / parallel perturbation passes (quick, thorough)
 EXES = ['release']
 RULE = ('each case obtains pairing values g, h (pairings of random / boundary multiples of the generators through a random entry point, '
         'and derived values: products, powers, inverses) and evaluates through the library g*h, h*g, g*one, inverse(g), inverse(g)*g, '
